@@ -29,6 +29,24 @@ pub fn auto_traits<'tcx>(cx: &Ctx<'tcx>, ty: Ty<'tcx>) -> J {
     obj! { "Send": q(send), "Sync": q(sync), "Freeze": q(freeze), "Unpin": q(unpin) }
 }
 
+/// unparsed (tool / derive-helper) attributes of a definition as text: `iden = "x"`, `iden(rename = "x")`, `method = "m"`
+fn attrs_j<'tcx>(cx: &Ctx<'tcx>, did: DefId) -> J {
+    let tcx = cx.tcx;
+    let mut out = Vec::new();
+    if let Some(local) = did.as_local() {
+        let hir_id = tcx.local_def_id_to_hir_id(local);
+        for a in tcx.hir_attrs(hir_id) {
+            if let rustc_hir::Attribute::Unparsed(item) = a {
+                let path: Vec<String> = item.path.segments.iter().map(|s| s.to_string()).collect();
+                let sm = tcx.sess.source_map();
+                let text = sm.span_to_snippet(item.span).unwrap_or_default();
+                out.push(obj! { "path": J::s(path.join("::")), "text": J::s(text) });
+            }
+        }
+    }
+    if out.is_empty() { J::Null } else { J::Arr(out) }
+}
+
 pub fn dump_items<'tcx>(cx: &mut Ctx<'tcx>) -> J {
     let tcx = cx.tcx;
     let mut adts = Vec::new();
@@ -65,6 +83,7 @@ pub fn dump_items<'tcx>(cx: &mut Ctx<'tcx>) -> J {
                         "name": J::s(v.name.to_string()),
                         "idx": J::Int(vi.as_u32() as i128),
                         "def": J::s(cx.def(v.def_id)),
+                        "attrs": attrs_j(cx, v.def_id),
                         "ctor": match v.ctor_kind() {
                             Some(rustc_hir::def::CtorKind::Fn) => J::s("fn"),
                             Some(rustc_hir::def::CtorKind::Const) => J::s("const"),
@@ -89,6 +108,12 @@ pub fn dump_items<'tcx>(cx: &mut Ctx<'tcx>) -> J {
                         "ty_params": J::Int(n_ty_params as i128),
                         "lt_params": J::Int(n_lt_params as i128),
                         "non_exhaustive": J::Bool(adt.is_variant_list_non_exhaustive()),
+                        "attrs": attrs_j(cx, did),
+                        "src": if cx.tcx.crate_name(LOCAL_CRATE).as_str() != "sea_query" {
+                            // whole item text incl. helper attributes (for witness cross-checks of derive expansions)
+                            let item_span = tcx.hir_span_with_body(tcx.local_def_id_to_hir_id(id));
+                            match tcx.sess.source_map().span_to_snippet(item_span) { Ok(t) if t.len() < 8000 => J::s(t), _ => J::Null }
+                        } else { J::Null },
                         "sp": sp,
                         "variants": J::Arr(variants),
                         "auto": auto,
